@@ -4,6 +4,7 @@ import (
 	"context"
 	"errors"
 	"fmt"
+	metav1 "k8s.io/apimachinery/pkg/apis/meta/v1"
 	"runtime"
 	"strings"
 
@@ -53,6 +54,21 @@ type InjectedError struct {
 
 func (e *InjectedError) Error() string { return fmt.Sprintf("injected fault %s (%s)", e.ID, e.Kind) }
 func (e *InjectedError) Unwrap() error { return ErrInjected }
+
+// Status makes an injected failure look like what an API server (or the path to it) returns, so
+// that code classifying errors with k8s.io/apimachinery/pkg/api/errors sees realistic reasons: a
+// call whose answer was lost is a gateway timeout (it may have been applied), a rejected call is
+// a 503 (not applied).
+func (e *InjectedError) Status() metav1.Status {
+	st := metav1.Status{Status: metav1.StatusFailure, Message: e.Error()}
+	switch e.Kind {
+	case LostReply, StopAfter:
+		st.Reason, st.Code = metav1.StatusReasonTimeout, 504
+	default:
+		st.Reason, st.Code = metav1.StatusReasonServiceUnavailable, 503
+	}
+	return st
+}
 
 // Call is one API call as observed at the client seam.
 type Call struct {
